@@ -149,12 +149,12 @@ def run(tier, seed):
         f.write(json.dumps(params) + "\n")
     cfg = "FormatSpec_quick" if tier == "quick" else "FormatSpec_thorough"
     r = core.tlc_or_die("FormatSpec", cfg=cfg, env={"C18_PARAMS": pfile}, timeout=900 if tier == "quick" else 3000,
-                        coverage=True, workers=min(core.NCPU, 8), heap="6g")
+                        workers=min(core.NCPU, 8))      # (no -coverage: cost tracking switches off TLC's LET caching and the run never ends)
     cov["tlc"].append(dict(r.summary(), config=cfg))
     cases = r.printed
-    for act in ("EvalFstr", "EvalPct", "EvalCall", "EvalJoin"):
-        if r.coverage and r.coverage.get(act, (0, 0))[1] == 0:
-            core.die("vacuous model: action %s never taken (%r)" % (act, r.coverage))
+    # vacuity guard on the model: every done state is published by the invariant Publish, so the records count the Eval<Site> steps
+    if r.generated != 3 * len(cases) or r.depth != 3:
+        core.die("FormatSpec: %d states for %d published cases (expected todo/ops/done per case)" % (r.generated, len(cases)))
     by_cls = collections.Counter((c["site"], c["cls"]) for c in cases)
     for need in (("fstr", "core"), ("fstr", "cfam"), ("fstr", "conv"), ("fstr", "ffam"), ("fstr", "gen"), ("fstr", "bad"),
                  ("pct", "pct"), ("call", "call"), ("join", "join")):
@@ -240,6 +240,7 @@ def run(tier, seed):
                 got[i] = (obs_of(o), call)
     n_replayed = 0
     n_agree = 0
+    dump = [] if os.environ.get("C18_DUMP") else None      # development aid: all disagreements of the run as one JSON file
     distinct = set()
     samples_ok = []
     for i, (c, op, val, want, hz, decided) in enumerate(cells):
@@ -257,9 +258,15 @@ def run(tier, seed):
                 samples_ok.append(i)
             continue
         desc = descriptor(c, op, val, want, hz, decided)
+        if dump is not None:
+            dump.append({"desc": desc, "obs_class": obs_class(want, o), "expr": e, "operand": repr(val), "want": want, "got": o})
         rep.disagree(desc, obs_class(want, o), {"expr": e, "operand": repr(val), "operand2": repr(L.dec_value(op["w"])) if c["site"] == "join" else None,
                                                  "carrier": L.carrier(op) if c["site"] != "join" else "int,object", "want": want, "got": o,
                                                  "call": call, "model_hazard": hz})
+
+    if dump is not None:
+        with open(os.environ["C18_DUMP"], "w") as f:
+            json.dump(dump, f)
 
     # ---- binding demonstration: a corrupted expectation must be rejected by the comparison
     demo = [i for i in samples_ok if cells[i][3].startswith("T:") and len(cells[i][3]) > 2][:50]
@@ -273,7 +280,7 @@ def run(tier, seed):
 
     cov.update({
         "states": r.generated, "distinct_states": r.distinct, "transitions": r.generated,
-        "action_coverage": {k: list(v) for k, v in r.coverage.items() if k.startswith("Eval")},
+        "eval_steps_by_site": dict(collections.Counter(c["site"] for c in cases)),
         "cases": len(cases), "cases_by_class": {"%s/%s" % k: v for k, v in sorted(by_cls.items())},
         "evaluations": n_replayed, "traces_validated_against_impl": n_replayed, "cells_agreeing": n_agree,
         "cells_decided_by_spec": len(cells) - n_undecided, "cells_oracle_only": n_undecided,
